@@ -14,7 +14,7 @@ pub fn def() -> PropDef {
         job_level,
         run_job,
         replay,
-        rule: "chord tables: ALL sets of 1-3 chords over the participant subsets {ab, ac, bc, abc} (thorough: also 4 participants) as defchordsv2 (x release rule {first-release, all-released} x {enabled, all disabled on the held layer, each single chord disabled on the held layer while the others stay enabled}) and as a v1 defchords group (with all singletons defined); every chord has its own output key. Structured histories per table: for EVERY non-empty subset S of the participants (alone, and with a non-chord key z inserted at every position): EVERY permutation of presses, EVERY gap vector from {0,1,T-1,T,T+1}, then EVERY release permutation (1 tick apart; for the all-0 and all-1 press-gap vectors (foreign key absent or pressed last) also 45 ticks apart, which shows which key each output is bound to), then settle. Quick adds five v1 tables over four participants (decomposition shapes; press gaps {0,1}, no foreign key). Generic histories: ALL physically consistent histories of D steps over press/release of a,b,c,z + tick 1 + tick T+1. Oracle ChordSpec: (exact) if S is a defined chord and all of S is pressed within the timeout (boundary T: either), exactly that chord's action is output once and no participant's own action; (none) if S contains no defined chord as a subset, every key's own action is output once, in press order; (always) accounting: the participants of the chords that fired plus the keys whose own action was output are exactly the keys pressed, each once (nothing swallowed, nothing doubled), own actions of non-chord keys keep their order; with the chords disabled on the active layer no chord fires; the chord action goes up no later than T+8+2*(number of events) ticks (processing latency of queued releases) after the last participant's release, for all-released — and for a v1 chord with a single-key action that fired for exactly the pressed set (documented v1 release behaviour) — not before it, for first-release within T+8 ticks of the first release; nothing is held after settle; a key whose own action was output (alone or as a decomposed part) goes up no later than the latency bound after THAT key's release.",
+        rule: "chord tables: ALL sets of 1-3 chords over the participant subsets {ab, ac, bc, abc} (thorough: also 4 participants) as defchordsv2 (x release rule {first-release, all-released} x {enabled, all disabled on the held layer, each single chord disabled on the held layer while the others stay enabled}) and as a v1 defchords group (with all singletons defined); every chord has its own output key. Structured histories per table: for EVERY non-empty subset S of the participants (alone, and with a non-chord key z inserted at every position): EVERY permutation of presses, EVERY gap vector from {0,1,T-1,T,T+1}, then EVERY release permutation (1 tick apart; for the all-0 and all-1 press-gap vectors (foreign key absent or pressed last) also 45 ticks apart, which shows which key each output is bound to), then settle. Quick adds five v1 tables over four participants (decomposition shapes; press gaps {0,1}, no foreign key). Generic histories: ALL physically consistent histories of D steps over press/release of a,b,c,z + tick 1 + tick T+1. Oracle ChordSpec: (exact) if S is a defined chord and all of S is pressed within the timeout (boundary T: either), exactly that chord's action is output once and no participant's own action; (none) if S contains no defined chord as a subset, every key's own action is output once, in press order; (always) accounting: the participants of the chords that fired plus the keys whose own action was output are exactly the keys pressed, each once (nothing swallowed, nothing doubled; presses that complete again a chord that is still held — staggered release and re-press of its participants — count as accounted for by it), own actions of non-chord keys keep their order; with the chords disabled on the active layer no chord fires; the chord action goes up no later than T+8+2*(number of events) ticks (processing latency of queued releases) after the last participant's release, for all-released — and for a v1 chord with a single-key action that fired for exactly the pressed set (documented v1 release behaviour) — not before it, for first-release within T+8 ticks of the first release; nothing is held after settle; a key whose own action was output (alone or as a decomposed part) goes up no later than the latency bound after THAT key's release.",
         assumptions: &["v1 release timing beyond 'not later than all participants released' is documented as inconsistent and not checked", "chords-v2-min-idle (5 ticks after a non-chord activation) makes chord firing optional within that window in generic histories; accounting still holds"],
         required_level,
         min_outcomes: 3,
@@ -36,7 +36,7 @@ struct Table {
     /// bit i set = chord i is disabled on layer nav (and the histories run with nav held)
     disabled: u8,
     /// light structured family: press gaps {0,1} only and no foreign key (used for the 4-participant tables of the quick tier)
-    light: bool,
+    light: u8, // 0 = full; 1 = press gaps {0,1}, no foreign key; 2 = all press gaps, no foreign key
 }
 
 impl Table {
@@ -103,25 +103,26 @@ fn tables(tier: Tier) -> Vec<Table> {
             chordsets.retain(|c| c.iter().any(|m| m & 8 != 0));
             chordsets.truncate(60);
         }
+        let light: u8 = if np == 4 { 2 } else { 0 };
         for cs in chordsets {
             for first_release in [false, true] {
-                v.push(Table { v2: true, nparts: np, chords: cs.clone(), first_release, disabled: 0, light: false });
+                v.push(Table { v2: true, nparts: np, chords: cs.clone(), first_release, disabled: 0, light });
             }
             // all chords disabled on the held layer; each single chord disabled while the others stay enabled
-            v.push(Table { v2: true, nparts: np, chords: cs.clone(), first_release: false, disabled: (1u8 << cs.len()) - 1, light: false });
+            v.push(Table { v2: true, nparts: np, chords: cs.clone(), first_release: false, disabled: (1u8 << cs.len()) - 1, light });
             if cs.len() >= 2 {
                 for i in 0..cs.len() {
-                    v.push(Table { v2: true, nparts: np, chords: cs.clone(), first_release: false, disabled: 1 << i, light: false });
+                    v.push(Table { v2: true, nparts: np, chords: cs.clone(), first_release: false, disabled: 1 << i, light });
                 }
             }
-            v.push(Table { v2: false, nparts: np, chords: cs.clone(), first_release: false, disabled: 0, light: false });
+            v.push(Table { v2: false, nparts: np, chords: cs.clone(), first_release: false, disabled: 0, light });
         }
     }
     if tier == Tier::Quick {
         // v1 decomposition shapes that need four participants (a pressed set that is undefined but
         // contained in a larger chord stays pending and is decomposed into several parts)
         for cs in [vec![0b0011u8, 0b1111], vec![0b1111], vec![0b0011, 0b1100, 0b1111], vec![0b0111, 0b1111], vec![0b0110, 0b1111]] {
-            v.push(Table { v2: false, nparts: 4, chords: cs, first_release: false, disabled: 0, light: true });
+            v.push(Table { v2: false, nparts: 4, chords: cs, first_release: false, disabled: 0, light: 1 });
         }
     }
     v
@@ -334,12 +335,12 @@ fn run_structured(t: &Table, st: &mut Stats) -> Vec<Violation> {
     let codes: Vec<u16> = PART[..t.nparts].iter().map(|k| kc(k)).collect();
     let (zc, nc) = (kc("z"), kc("n"));
     let all_gaps = [0u32, 1, T - 1, T, T + 1];
-    let gaps: &[u32] = if t.light { &all_gaps[..2] } else { &all_gaps[..] };
+    let gaps: &[u32] = if t.light == 1 { &all_gaps[..2] } else { &all_gaps[..] };
     for smask in 1u8..(1 << t.nparts) {
         let skeys: Vec<usize> = (0..t.nparts).filter(|b| smask & (1 << b) != 0).collect();
         for pp in perms(skeys.len()) {
             // z insertion positions: None or 0..=len
-            for zpos in std::iter::once(None).chain((0..=skeys.len()).map(Some)).take(if t.light { 1 } else { usize::MAX }) {
+            for zpos in std::iter::once(None).chain((0..=skeys.len()).map(Some)).take(if t.light > 0 { 1 } else { usize::MAX }) {
                 let mut order: Vec<usize> = pp.iter().map(|i| skeys[*i]).collect();
                 if let Some(z) = zpos {
                     order.insert(z, 9);
@@ -464,6 +465,38 @@ fn run_generic(t: &Table, depth: usize, st: &mut Stats) -> Vec<Violation> {
                 let sigp = if t.v2 { "v2" } else { "v1" };
                 let v = if !o.held.is_empty() {
                     Some((format!("{sigp}::generic::stuck"), format!("held after settle {:?}", o.held)))
+                } else if accounted < npresses && {
+                    // Re-completion of a chord that is still active: with staggered releases and
+                    // re-presses (a up, a down, b up, b down) the participants are never all released,
+                    // so an all-released chord stays down the whole time and completing it again has
+                    // nothing new to press. Those presses are accounted for by the active chord.
+                    let mut now = 0u64;
+                    let mut press_times: Vec<(usize, u64)> = vec![];
+                    for e in &full {
+                        match e {
+                            Ev::T(n) => now += *n as u64,
+                            Ev::P(c) => {
+                                if let Some(pi) = PART.iter().position(|k| kc(k) == *c) {
+                                    press_times.push((pi, now));
+                                }
+                            }
+                            _ => {}
+                        }
+                    }
+                    let mut allowance = 0usize;
+                    for (ci, _dn, up) in &o.fired {
+                        let until = up.map(|u| u + 1).unwrap_or(u64::MAX);
+                        let parts: Vec<usize> = (0..4).filter(|b| t.chords[*ci] & (1 << b) != 0).collect();
+                        let completions = parts.iter().map(|p| press_times.iter().filter(|(k, tm)| k == p && *tm <= until).count()).min().unwrap_or(0);
+                        allowance += completions.saturating_sub(1) * parts.len();
+                    }
+                    let ok = npresses - accounted <= allowance;
+                    if ok {
+                        st.outcome("generic/re-completion-of-active-chord");
+                    }
+                    ok
+                } {
+                    None
                 } else if accounted != npresses {
                     // discriminator: a key released and pressed again within the same millisecond
                     let same_ms_repress = full.windows(2).any(|w| matches!((w[0], w[1]), (Ev::R(x), Ev::P(y)) if x == y));
